@@ -141,6 +141,7 @@ func cmdRecord(args []string) int {
 	hostLen := fs.Int("host-len", 3, "")
 	scanN := fs.Int("scan", 0, "novelty scan: explore this many token-generated calls on the real code, record one representative per behaviour class (scan.go)")
 	scanKeep := fs.Int("scan-keep", 20000, "at most this many representatives")
+	scanVocab := fs.String("scan-vocab", "", "host-focused scan: v4 | v6 | dom (frame + host built from the vocabulary)")
 	scanSetters := fs.Int("scan-setter-percent", 30, "share of scanned calls that are (start URL, setter, value)")
 	fs.Parse(args)
 	var pinnedInputs []string
@@ -193,7 +194,7 @@ func cmdRecord(args []string) int {
 	var scanned []scanCand
 	if *scanN > 0 {
 		var classes int
-		scanned, classes = scanCandidates(r, recP, *scanN, *scanKeep, *scanSetters)
+		scanned, classes = scanCandidates(r, recP, *scanN, *scanKeep, *scanSetters, *scanVocab)
 		fmt.Printf("SCAN explored=%d classes=%d kept=%d\n", *scanN, classes, len(scanned))
 		*n = 0
 	}
